@@ -57,7 +57,10 @@ def values_at(axis, level, n):
             for b in range(a + 1, n + 1):
                 if b - a <= 3:
                     out.append([[a, b, True, [['7', 1]]]])
-        return out[:8]
+                    out.append([[a, b, True, None]])            # ambiguity interval without a modification
+                    if level <= 1:
+                        out.append([[a, b, False, [['7', 1]]]])
+        return out[:24] if level <= 1 else out[:16]
     raise KeyError(axis)
 
 
